@@ -10,6 +10,12 @@ L3  the portable float codec of object files uses paired converters and equal
 from . import common, c04_builtins, c05_codec
 from .common import AnalysisBroken, strip, walk, calls, const_value, string_value
 
+EXPLANATION_L4 = (
+    " L4 (sibling isomorphism): each single/double-precision pair listed in frozen/c19_sibling_pairs.json (xfloat.c: classify, "
+    "dissemble, assemble, to/from native format; foam_c.c: Min, Max, Epsilon, Next, Prev, rounded arithmetic, Fraction, Mantissa, "
+    "Format, ArrTo) has identical pre-order token sequences (node kind, operator, callee, member, macro name of constants, cast and "
+    "sizeof types; locals by first use) once the family names are mapped to neutral ones; pairs that differ by design are not claimed.")
+
 EXPLANATION = (
     "L1: the C04 sibling comparison restricted to ArrToSFlo, ArrToDFlo, ArrToSInt and ArrToBInt: the folder, the interpreter, "
     "both C forms and the reference reach the same conversion primitive (atof / fiArrToSInt / bintFrString) through the same "
@@ -21,24 +27,61 @@ EXPLANATION = (
     "both sides. Not decided: bit identity of the xfloat.c transforms themselves; signed zero and infinities in "
     "DFloatSprint (value classes, recorded in DESIGN.md).")
 
+EXPLANATION = EXPLANATION + EXPLANATION_L4
+
 LITERAL_BUILTINS = ("ArrToSFlo", "ArrToDFlo", "ArrToSInt", "ArrToBInt")
+
+
+def l4(rep):
+    """Single- and double-precision siblings are the same algorithm (isomorphic syntax trees under the family renaming)."""
+    import json, os
+    from . import siblings
+    spec = json.load(open(os.path.join(os.path.dirname(__file__), "frozen", "c19_sibling_pairs.json")))
+    n = 0
+    for unit, sp in sorted(spec.items()):
+        f = common.extract(unit, sp["config"], all_trees=True)
+        pairs = [tuple(x) for x in sp["rename"]]
+        for a, b in sp["pairs"]:
+            n += 1
+            r = siblings.compare(f.func(a), f.func(b), pairs)
+            key = "siblings:%s:%s~%s" % (unit, a, b)
+            if r is None:
+                rep.ok("L4", key, sample={"pair": [a, b], "tokens": "identical after renaming"} if n in (1, 12) else None)
+            else:
+                i, ta, la, tb, lb, na, nb = r
+                rep.violation("L4", key, "%s:%d (%s) / %s:%d (%s)" % (unit, la, a, unit, lb, b),
+                              "the single- and double-precision versions are the same algorithm with the family's names exchanged, "
+                              "but they differ at token %d: `%s` (line %d of %s) against `%s` (line %d of %s); one of the two was "
+                              "changed without its sibling" % (i, ta, la, a, tb, lb, b))
+    rep.floor("sibling pairs compared", n, 20)
 
 
 def run(tier, only=None):
     rep = common.Report("C19", tier, EXPLANATION)
+    # ---- L4 first: it needs nothing from C04 ----
+    l4(rep)
     # ---- L1 ----
-    r4 = c04_builtins.run(tier)
+    try:
+        r4 = c04_builtins.run(tier)
+    except AnalysisBroken as e:
+        # L1 re-uses C04's comparison, which needs every copy of every builtin to be expressible; when L4 already reports
+        # the edit that makes a copy inexpressible, report that instead of "analysis broken"
+        if not rep.violations:
+            raise
+        rep.note("L1 not evaluated: %s" % e)
+        r4 = None
     hits = 0
-    for rule, inst in sorted(r4.nontrivial):
+    for rule, inst in sorted(r4.nontrivial if r4 else []):
         short = inst.split(":")[0] if rule in ("B3", "B4") else None
         if rule in ("B3", "B4") and short in LITERAL_BUILTINS:
             hits += 1
             rep.ok("L1", "%s:%s" % (rule, inst))
-    for v in r4.violations + r4.known_hits:
+    for v in (r4.violations + r4.known_hits if r4 else []):
         parts = v["key"].split(":")
         if len(parts) >= 2 and parts[1] in LITERAL_BUILTINS:
             rep.violation("L1", v["key"], v["where"], v["message"], detail=v.get("detail"))
-    rep.floor("literal-conversion comparisons", hits + sum(1 for v in rep.violations), 8)
+    if r4 is not None:
+        rep.floor("literal-conversion comparisons", hits + sum(1 for v in rep.violations), 8)
     # ---- L2 ----
     f = common.extract("util.c", trees=["DFloatSprint"])
     fn = f.func("DFloatSprint")
